@@ -384,8 +384,11 @@ impl WalManager {
 
         // Replace active log
         let mut guard = self.active_log.lock();
-        if let Some(old_log) = guard.take() {
-            // Ensure old log is flushed
+        if let Some(mut old_log) = guard.take() {
+            // Ensure old log is flushed and durable: records in the new file must never
+            // survive a crash that loses records of the file before it
+            old_log.writer.flush()?;
+            old_log.writer.get_ref().sync_all()?;
             drop(old_log);
         }
         *guard = Some(new_log);
